@@ -219,6 +219,19 @@ fn check_view(p: &ObjectPath, view: &Value, e: usize, step: usize) -> Result<u64
             (e2, g) => return Err(fail(if key == "parent" { "parent" } else { "nonzero_parent" }, json!(e2), json!(g.map(|x| x.as_str().to_string())))),
         }
     }
+    // the owned-string conversions agree with the borrowed one, the default path is the root
+    if view["module"] == true {
+        let owned = ObjectPath::from(s.clone());
+        let by_ref = ObjectPath::from(&s);
+        let borrowed = ObjectPath::from(s.as_str());
+        if owned != borrowed || by_ref != borrowed || owned.len() != borrowed.len() || owned.name() != borrowed.name() || owned.is_root() != borrowed.is_root() {
+            return Err(fail("From<String> / From<&String> against From<&str>", json!({"len": borrowed.len(), "name": borrowed.name(), "root": borrowed.is_root()}),
+                            json!({"len": owned.len(), "name": owned.name(), "root": owned.is_root(), "eq": owned == borrowed, "ref_eq": by_ref == borrowed})));
+        }
+        if s.is_empty() && (ObjectPath::default() != borrowed || !ObjectPath::default().is_root()) {
+            return Err(fail("Default (the root path)", json!("== from(\"\")"), json!(ObjectPath::default().as_str())));
+        }
+    }
     // however it was built, the path equals (and hashes like) the canonically built one: module lookups go by path
     let c = canonical(view, e);
     if *p != c || hash_of(p) != hash_of(&c) {
